@@ -52,6 +52,9 @@ CHECKS = {
  "C14": ("SEQ", "model_checking", "4 (C14)",
          "Same for scripted Stream (items / Pending / None) and Sink (ready / send / flush / close with a pending close) call sequences, migration between two threads, drop at every point.",
          "explicit enumeration of call sequences x cycle placements against a reference model (stateless exploration of the real code)"),
+ "C16": ("SEQ", "model_checking", "4 (C16)",
+         "Disabled build (fastrace without `enable`, separate workspace so that no feature unification happens): all call sequences up to length 3 (4) over 30 public operations; after every call: no closure ran, no reporter call, no new thread, every query None/empty, #[trace] functions unchanged. Enabled build: generated call sequences over non-recording spans (no-op-derived, scope-less local operations) with every closure counted, run with a reporter and in a process that never installs one, plus a probe that creates spans before set_reporter and uses them afterwards.",
+         "explicit enumeration of call sequences in both feature configurations against closure counters / reporter log / thread count"),
 }
 
 props = [json.loads(l) for l in open("properties.jsonl")]
@@ -59,7 +62,7 @@ hooks_commits = subprocess.run(["git", "-C", "/repo", "log", "--format=%h %s", "
 
 m = {
  "version": 1,
- "setup_cmd": "cd /verif/harness && CARGO_NET_OFFLINE=true cargo build --release --offline",
+ "setup_cmd": "cd /verif/harness && CARGO_NET_OFFLINE=true cargo build --release --offline && cd /verif/harness-disabled && CARGO_NET_OFFLINE=true cargo build --release --offline",
  "hooks": {
    "guard": "fastrace_verif",
    "enable": "RUSTFLAGS=\"--cfg fastrace_verif\" (set for the harness workspace in /verif/harness/.cargo/config.toml; fastrace/Cargo.toml declares the cfg under [lints.rust] check-cfg)",
